@@ -1,5 +1,5 @@
 import NbioVerif.Properties.C01
-import NbioVerif.Lemmas.ConnDrain
+import NbioVerif.Lemmas.ConnEvEnd
 /-!
 # C04 Flush liveness (safety core + progress)
 
@@ -95,6 +95,14 @@ example :
     let s := run g init [.write [1, 2] [.wrote 1], .register, .sendfile 3 2 []]
     Quiet s ∧ backlog s.wl = 3 ∧ (run g s (List.replicate 3 (round 2)).flatten).wire = [1, 2, 3, 4] := by
   refine ⟨⟨by decide, by decide, by decide, by decide, by decide, by decide, by decide⟩, by decide, by decide⟩
+
+/-- **C04 (the tail of an event is three separately scheduled actions).** The poller finishes an event with
+    the connected tail (`evConnEnd`), `ResetPollerEvent` (`evRearm`) and `closeWithError(io.EOF)` (`evErrClose`);
+    each is an op of its own, so every theorem here (`c04_armed`, `c04_et_edge`, `c04_belief`, …, all stated
+    over arbitrary op sequences) covers calls of other goroutines between them. The merged `evEnd` that the
+    sequential driver runs is exactly their composition. -/
+theorem c04_tail_is_three_steps (g : Cfg) (s : S) :
+    step g s .evEnd = run g s [.evConnEnd, .evRearm, .evErrClose] := evEnd_run g s
 
 /-- **C04 (the conn's belief is right).** `isWAdded` holds exactly when a backlog exists (or an async
     connect is still in progress), and once registered the kernel's interest set agrees with it
@@ -195,6 +203,19 @@ example :
 /-- ONESHOT: an EPOLLOUT-only event whose flush stops at EAGAIN: between `evTake` and `evEnd` the fd is
     disarmed with the re-arm pending, afterwards it is armed again -/
 def g1 : Cfg := ⟨.oneshot, 0, 10, fun i => UInt8.ofNat i⟩
+
+/-- ONESHOT, DialAsync: a writer goroutine between the connected tail and ResetPollerEvent, another between
+    ResetPollerEvent and the error close — EPOLLOUT stays armed for the backlog until the conn is closed -/
+example :
+    let s1 := run g1 init [.registerDial, .evTake true false true [], .evConnEnd, .write [1, 2, 3] [.wrote 1]]
+    let s2 := step g1 s1 .evRearm
+    let s3 := step g1 s2 (.write [4] [])
+    let s4 := run g1 s3 [.evErrClose, .teardown]
+    s1.rearm = true ∧ s1.kOut = true ∧ s1.disarmed = false ∧ s1.wl.length = 1 ∧
+    s2.rearm = false ∧ s2.kOut = true ∧ s2.disarmed = false ∧ s2.evErr = true ∧
+    s3.kOut = true ∧ s3.closed = false ∧ s4.closed = true ∧ s4.onClose = 1 := by
+  decide
+
 example :
     let s1 := run g1 init [.register, .write [1, 2, 3] [.wrote 1], .evTake true false false [.wrote 1, .eagain]]
     let s2 := run g1 init [.register, .write [1, 2, 3] [.wrote 1], .evTake true false false [.wrote 1, .eagain], .evEnd]
